@@ -12,6 +12,7 @@ C09.c precedence in KeepOptions::apply: must_keep, then must_delete, then delete
 import datetime
 import re
 from rules.common import *
+from rules.order import _module_of
 
 LEVEL = "other"
 EXHAUSTIVE = True
@@ -664,20 +665,36 @@ def run(ctx, rep):
     def site(rx):
         s = [bb for bb, t in A.calls() if re.search(rx, callee(t))]
         return s
+    def site_in(B, rx):
+        return [bb for bb, t in B.calls() if re.search(rx, callee(t))]
     mk = site(r"snapshotfile::SnapshotFile::must_keep$")
     md = site(r"snapshotfile::SnapshotFile::must_delete$")
     mt = site(r"forget::KeepOptions::matches$")
-    rep.require("C09.c", "sites", len(mk) == 1 and len(md) == 1 and len(mt) == 1, where=A.loc(), what="KeepOptions::apply calls must_keep, must_delete and matches once each")
+    # the two unconditional tests may live in a helper of the same module that hands its verdict back as an enum
+    # (`fn decision(sn, now) -> Option<bool>`): the helper is summarised (which variants it can return once must_keep /
+    # must_delete answered true) and the summary decides the `match` on its result in apply
+    KB, hcall = A, None
+    if not mk and not md:
+        for bb_, t_ in A.calls():
+            H_ = prog.bodies.get(callee(t_)) if "callee" in t_ else None
+            if H_ is not None and _module_of(H_.path) == _module_of(A.path):
+                k_, d_ = site_in(H_, r"snapshotfile::SnapshotFile::must_keep$"), site_in(H_, r"snapshotfile::SnapshotFile::must_delete$")
+                if len(k_) == 1 and len(d_) == 1 and hcall is None:
+                    KB, hcall, mk, md = H_, bb_, k_, d_
+    rep.require("C09.c", "sites", len(mk) == 1 and len(md) == 1 and len(mt) == 1, where=A.loc(), what="KeepOptions::apply calls must_keep, must_delete and matches once each (the first two possibly through one helper)")
     if len(mk) == 1 and len(md) == 1 and len(mt) == 1:
         import pathsens
 
-        def force_result(test_bb, val):
-            """forced-successor fn: the bool switch on the result of the call at test_bb takes the edge for `val`"""
-            t = A.term(test_bb)
+        def force_result(test_bb, val, B=None):
+            """forced-successor fn: the bool switch on the result of the call at test_bb (in B) takes the edge for `val`"""
+            B = B or KB
+            t = B.term(test_bb)
             dl = t["dest"][0]
-            aliases, _, _ = flow.forward_aliases(A, dl)
+            aliases, _, _ = flow.forward_aliases(B, dl)
 
             def fz(body, bb):
+                if body is not B:
+                    return None
                 tt = body.term(bb)
                 if tt["k"] != "switch" or tt["discr_ty"] != "bool" or op_local(tt["discr"]) not in aliases | {dl}:
                     return None
@@ -687,25 +704,59 @@ def run(ctx, rep):
                 return tt["otherwise"] if val else zero[0]
             return fz
 
+        def returned_variants(B, reach):
+            """discriminants of the enum values B can return on the blocks in reach; None = not decidable"""
+            out = set()
+            def of_local(l, depth=0):
+                ds = [d for d in B.defs().get(l, []) if d[1] in reach]
+                if not ds or depth > 3:
+                    return False
+                for d in ds:
+                    if d[0] != "stmt" or len(d[3]) != 1:
+                        return False
+                    rv = d[4]
+                    if rv[0] == "agg" and rv[1][0] == "adt" and rv[1][1] in pathsens.ADT_VARIANTS and rv[1][2] in pathsens.ADT_VARIANTS[rv[1][1]]:
+                        pl_ = None
+                        if len(rv[2]) == 1 and rv[2][0][0] == "k" and rv[2][0][1].get("ty") == "bool" and rv[2][0][1].get("v") in (0, 1, True, False):
+                            pl_ = bool(rv[2][0][1]["v"])
+                        out.add((pathsens.ADT_VARIANTS[rv[1][1]][rv[1][2]], pl_))
+                    elif rv[0] == "use" and rv[1][0] in ("c", "m") and len(rv[1][1]) == 1:
+                        if not of_local(rv[1][1][0], depth + 1):
+                            return False
+                    else:
+                        return False
+                return True
+            return sorted(out) if of_local(0) and out else None
+
+        def scenario(test_bb, val):
+            """blocks of apply reachable once the test at test_bb answered val"""
+            if hcall is None:
+                return pathsens.reachable_under(A, force_result(test_bb, val, A)), None
+            rh = pathsens.reachable_under(KB, force_result(test_bb, val, KB))
+            vs = returned_variants(KB, set(rh))
+            return pathsens.reachable_under(A, lambda b_, bb_: None, call_results={hcall: vs} if vs else None), rh
+
         def str_blocks(lit):
             import json as _json
             return {bi for bi, blk in enumerate(A.blocks) if ('"str": ' + _json.dumps(lit)) in _json.dumps(blk)}
         # decided path-sensitively (bool locals and `match` on a locally built Option/enum are followed): once must_keep /
         # must_delete answered true, the later stages are unreachable - whatever the spelling (else-if chain, early decision held
         # in an Option, ...)
-        r_keep = pathsens.reachable_under(A, force_result(mk[0], True))
-        r_del = pathsens.reachable_under(A, force_result(md[0], True))
-        rep.check("C09.c", "keep-before-delete", md[0] not in r_keep and md[0] in A.reachable_from(0), where=where(A, mk[0]), what="must_delete is consulted only if must_keep is false (a protected snapshot is never deleted)")
-        rep.check("C09.c", "delete-before-matches", mt[0] not in r_del, where=where(A, md[0]), what="keep rules are consulted only if must_delete is false (an expired snapshot is not kept by a keep rule)")
-        rep.check("C09.c", "keep-before-matches", mt[0] not in r_keep, where=where(A, mk[0]), what="keep rules are consulted only if must_keep is false")
+        r_keep, rh_keep = scenario(mk[0], True)
+        r_del, _ = scenario(md[0], True)
+        kb_ok = (md[0] not in r_keep and md[0] in A.reachable_from(0)) if hcall is None else \
+            (md[0] not in rh_keep and md[0] in KB.reachable_from(0) and hcall in A.reachable_from(0))
+        rep.check("C09.c", "keep-before-delete", kb_ok, where=where(KB, mk[0]), what="must_delete is consulted only if must_keep is false (a protected snapshot is never deleted)")
+        rep.check("C09.c", "delete-before-matches", mt[0] not in r_del, where=where(KB, md[0]), what="keep rules are consulted only if must_delete is false (an expired snapshot is not kept by a keep rule)")
+        rep.check("C09.c", "keep-before-matches", mt[0] not in r_keep, where=where(KB, mk[0]), what="keep rules are consulted only if must_keep is false")
         # delete_unchanged applies only to snapshots that are neither protected nor expired: the "unchanged" verdict is
         # unreachable once must_keep / must_delete answered true
         du = [bi for bi in range(len(A.blocks)) if field_bool_test(A, bi, "delete_unchanged")]
         unch = str_blocks("unchanged")
         rep.require("C09.c", "delete-unchanged-site", len(du) == 1 and bool(unch), where=A.loc(), what="KeepOptions::apply tests delete_unchanged once and has an 'unchanged' verdict")
         if len(du) == 1 and unch:
-            rep.check("C09.c", "keep-before-unchanged", not (unch & set(r_keep)), where=where(A, mk[0]), what="a protected snapshot (must_keep) is never given the 'unchanged' verdict")
-            rep.check("C09.c", "delete-before-unchanged", not (unch & set(r_del)), where=where(A, md[0]), what="the 'unchanged' verdict is not reached once must_delete holds")
+            rep.check("C09.c", "keep-before-unchanged", not (unch & set(r_keep)), where=where(KB, mk[0]), what="a protected snapshot (must_keep) is never given the 'unchanged' verdict")
+            rep.check("C09.c", "delete-before-unchanged", not (unch & set(r_del)), where=where(KB, md[0]), what="the 'unchanged' verdict is not reached once must_delete holds")
             # precedence of the option over the keep rules, independent of how the "same tree as the next snapshot" test is
             # spelled (closure, helper fn, local): within one iteration the 'unchanged' verdict and the call of matches() exclude
             # each other (neither is reachable from the other without going round the loop), the verdict is unreachable with
